@@ -78,11 +78,21 @@ class Cache:
         of things that are convertable to strings.
         """
         if isinstance(arg, np.ndarray):
-            self.ahash.update(arg.view(np.uint8))
+            # The data type and the shape are part of the identity of an
+            # array (the same bytes may represent different values).
+            self.ahash.update(
+                f"ndarray:{arg.dtype.str}:{arg.shape}:".encode("utf-8"))
+            # `view` only works for contiguous arrays
+            self.ahash.update(np.ascontiguousarray(arg).view(np.uint8))
         elif isinstance(arg, list):
+            self.ahash.update(b"[")
             [self._update_hash(a) for a in arg]
+            self.ahash.update(b"]")
         else:
             self.ahash.update(str(arg).encode('utf-8'))
+        # Separate the arguments from each other, such that e.g. the
+        # argument lists (1, 23) and (12, 3) do not result in the same hash.
+        self.ahash.update(b"|")
 
     @staticmethod
     def clear_cache():
